@@ -616,6 +616,10 @@ pub fn gen_c04(rng: &mut Rng, tier: Tier) -> NetProgram {
             if rng.chance(1, 6) {
                 acts.push(Act::QueryTree);
             }
+            // ... and so is the topology view with the routes it computes
+            if rng.chance(1, 8) {
+                acts.push(Act::QueryTopology);
+            }
             prog.modules[i].beats.push(Beat { at_ns: t, acts });
             t += if rng.chance(1, 4) { 0 } else { rng.below(30_000_000) };
         }
